@@ -1467,7 +1467,21 @@ int safec_vsnprintf_s(out_fct_type out, const char *funcname, char *buffer,
                     invoke_safe_str_constraint_handler(msg, buffer, ESNULLP);
                     return -(ESNULLP);
                 }
-                l = wcsnlen_s(lp, precision ? precision : RSIZE_MAX_WSTR);
+                /* the precision counts bytes: no more than that many wide
+                   characters are looked at, none with a precision of 0 */
+                if (!(flags & FLAGS_PRECISION))
+                    l = wcsnlen_s(lp, RSIZE_MAX_WSTR);
+                else if (precision)
+                    l = wcsnlen_s(lp, precision < RSIZE_MAX_WSTR
+                                          ? precision
+                                          : RSIZE_MAX_WSTR);
+                else
+                    l = 0;
+                /* every wide character may take MB_CUR_MAX bytes */
+                len = (size_t)l * MB_CUR_MAX;
+                if ((flags & FLAGS_PRECISION) && len > precision)
+                    len = precision;
+                l = (unsigned int)len;
                 p = (char *)malloc(l + 1);
                 if (!p) {
                     char msg[80];
@@ -1476,7 +1490,10 @@ int safec_vsnprintf_s(out_fct_type out, const char *funcname, char *buffer,
                     invoke_safe_str_constraint_handler(msg, buffer, 1);
                     return -1;
                 }
-                err = wcstombs_s(&len, p, l + 1, lp, l);
+                p[0] = '\0';
+                len = 0;
+                err = l ? wcstombs_s(&len, p, l + 1, lp, l) : EOK;
+                l = (unsigned int)len;
                 if (err != EOK) {
                     char msg[80];
                     snprintf(msg, sizeof msg,
